@@ -65,6 +65,7 @@ func TestC19(t *testing.T) {
 	run.Require("gauge_checks_during_failover", int64(reps))
 	modelScope(run)
 	breakerSkipGauges(run)
+	gaugesSurviveCleanup(run)
 	run.Require("breaker_skip_gauge_checks", 3)
 	run.Require("model_scope_trials", int64(rep.Pick(200, 3000)/map[bool]int{true: 4, false: 1}[rep.Mode() == "race"]))
 	run.Require("worlds_compared", int64(6*reps))
@@ -604,6 +605,71 @@ func modelScope(run *rep.Run) {
 // breakerSkipGauges (olla engine): an endpoint that is healthy in the repository but whose
 // engine circuit is open gets *selected and skipped*; a skip is not an attempt, so when the
 // traffic has stopped its gauge must be zero like everybody else's.
+// gaugesSurviveCleanup: a request is held inside b0; an hour passes (hook VerifAge: the
+// collector's records look 61 minutes older) in which only b1 completes requests, so the
+// collector's clean-up pass runs. b0 still has one attempt in flight and must say so.
+func gaugesSurviveCleanup(run *rep.Run) {
+	slow := func(us int) fw.Fault { return fw.Fault{Kind: "ok", Records: 700, GapUS: us} }
+	for ei, eng := range []string{"sherpa", "olla"} {
+		f, err := fw.New(fw.Opt{Engine: eng, Balancer: "priority", N: 2, Priorities: []int{100, 50}, ReadTimeout: 10 * time.Second})
+		if err != nil {
+			run.Inconclusive("world failed to start: " + err.Error())
+			return
+		}
+		col, ok := f.W.Stats().(*stats.Collector)
+		if !ok {
+			f.Close()
+			run.Inconclusive("statistics collector is not the expected type")
+			return
+		}
+		park := fmt.Sprintf("gc%dpark", ei)
+		f.SetFor(park, []fw.Fault{slow(3000), slow(3000)}) // ~2 s inside b0
+		done := make(chan struct{})
+		go func() { defer close(done); f.Send(world.NewClient(false, 15*time.Second), park, "") }()
+		url0 := ""
+		for p := 0; p < 300; p++ { // until the gauge shows the parked attempt
+			for u, g := range col.GetConnectionStats() {
+				if g == 1 {
+					url0 = u
+				}
+			}
+			if url0 != "" {
+				break
+			}
+			time.Sleep(5 * time.Millisecond)
+		}
+		if url0 == "" {
+			<-done
+			f.Close()
+			run.Inconclusive("the parked request never showed up in the gauges")
+			continue
+		}
+		col.VerifAge(61 * time.Minute)
+		// b0 out of the candidates for the next request, which b1 completes (and which makes the collector clean up)
+		f.B[0].SetHealth(500, "")
+		f.W.ForceHealth()
+		n := fmt.Sprintf("gc%dtick", ei)
+		f.SetFor(n, []fw.Fault{{Kind: "ok"}, {Kind: "ok"}})
+		f.Send(world.NewClient(false, 10*time.Second), n, "")
+		during := col.GetConnectionStats()[url0]
+		stillParked := true
+		select {
+		case <-done:
+			stillParked = false
+		default:
+		}
+		<-done
+		f.Collect()
+		run.Eval("gauges-survive-cleanup/" + eng)
+		run.Count("cleanup_gauge_cases", 1)
+		if stillParked && during != 1 {
+			run.Violation("C19/gauge/in-flight-attempt-forgotten-by-cleanup/"+eng, fmt.Sprintf("one attempt is in flight to b0; after an hour in which only b1 completed requests the reported active connections of b0 are %d", during),
+				map[string]any{"engine": eng, "gauges": col.GetConnectionStats()})
+		}
+		f.Close()
+	}
+}
+
 func breakerSkipGauges(run *rep.Run) {
 	for bi, bal := range []string{"least-connections", "round-robin", "priority"} {
 		f, err := fw.New(fw.Opt{Engine: "olla", Balancer: bal, N: 2, Priorities: []int{100, 100}, ReadTimeout: 2 * time.Second})
